@@ -288,6 +288,33 @@ def cli_case(arg):
                     if jf is None or numeric(jf) != baser:
                         out["viol"].append(("numbers-differ/root-order-with-dying-child", {"roots": rr[:4], "diff": {
                             k_: [baser.get(k_), (jf or {}).get(k_)] for k_ in baser if baser.get(k_) != (jf or {}).get(k_)}}))
+        # ignored references with the same values as walked ones, under names that sort before and after them
+        mi = build()
+        heads = {n: o for n, o in mi.refs.items() if n.startswith("refs/heads/")}
+        if heads:
+            ri = R.sizer(sz, g0, argv + ["--branches"], tmpdir=d)
+            out["evals"] += 1
+            ji, _ = P.parse_json(ri.out) if ri.rc == 0 else (None, None)
+            for k, pre in enumerate(["refs/aaa-archive/", "refs/zzz-archive/", "refs/changes/"]):
+                mk = build()
+                for n, o in heads.items():
+                    mk.refs[pre + n.split("/", 2)[2]] = mk.refs[n]
+                gk = G.write_model(mk, os.path.join(d, "ign%d" % k))
+                if ji is not None:
+                    expect = dict(numeric(ji))
+                    rk = R.sizer(sz, gk, argv + ["--branches"], tmpdir=d)
+                    out["evals"] += 1
+                    out["variants"] += 1
+                    jk, _ = P.parse_json(rk.out) if rk.rc == 0 else (None, None)
+                    if jk is None:
+                        out["viol"].append(("run-failed/ignored-duplicate-refs", {"stderr": rk.err[-300:]}))
+                    else:
+                        got = numeric(jk)
+                        diff = {k_: [expect.get(k_), got.get(k_)] for k_ in expect
+                                if k_ not in ("reference_count", "reference_groups") and expect.get(k_) != got.get(k_)}
+                        if diff:
+                            out["viol"].append(("numbers-differ/ignored-references-with-the-same-values", {"prefix": pre, "diff": diff}))
+                shutil.rmtree(gk, ignore_errors=True)
         # (c) the same objects under permuted reference names
         for k in range(3):
             mk = build(name_perm=rng.getrandbits(30))
